@@ -187,6 +187,19 @@ def build():
         defs.append(("%s_ord_is_name_cmp" % tag, "bool", bool_(re.fullmatch(r"\s*self\.name_cmp\(\s*other\s*\)\s*", ob_) is not None)))
         if has_canon:
             one(r"^\s*self\.name_cmp\(\s*other\s*\)\s*$", fn_body(impl_after(src_, g + r"CanonicalOrd<N>\s*for\s+%s<Octs>\s*where[^{]*\{" % ty, "CanonicalOrd for " + ty), "canonical_cmp"), ty + "::canonical_cmp is name_cmp")
+    # the host byte order (std hashes an Ipv4Addr as u32::from_ne_bytes(octets)):
+    # read from the compiler the harness is built with
+    import subprocess
+    cfg = subprocess.run(["rustc", "--print", "cfg"], stdout=subprocess.PIPE, stderr=subprocess.DEVNULL, timeout=60).stdout.decode()
+    me = re.search(r'target_endian="(little|big)"', cfg)
+    if not me:
+        raise GenError("rustc --print cfg does not report target_endian")
+    defs.append(("host_little_endian", "bool", bool_(me.group(1) == "little")))
+    # ASCII lower-casing is std's: the only calls used on the compared octets
+    used = set(re.findall(r"\b(to_ascii_lowercase|eq_ignore_ascii_case|make_ascii_lowercase|to_ascii_uppercase|to_lowercase|to_uppercase)\b", lab + strip_comments(read("src/base/charstr.rs"))))
+    if not used <= {"to_ascii_lowercase", "eq_ignore_ascii_case", "make_ascii_lowercase"}:
+        raise GenError("label.rs / charstr.rs use another case mapping: %r" % sorted(used))
+    defs.append(("case_mapping_is_std_ascii_lowercase", "bool", "true"))
     # UncertainName: == only within one variant, Hash over the labels
     un = strip_comments(read("src/base/name/uncertain.rs"))
     ub = fn_body(impl_after(un, r"impl<Octets,\s*Other>\s*PartialEq<UncertainName<Other>>\s*for\s+UncertainName<Octets>\s*where[^{]*\{", "PartialEq for UncertainName"), "eq")
@@ -235,6 +248,11 @@ def build():
     if any(mth != "cmp" for _, mth in ch_):
         raise GenError("Record::cmp uses another method than cmp")
     defs.append(("record_cmp_fields", "list N", nlist([FIELD[x] for x, _ in ch_])))
+    b = impl_after(rc, r"impl<N,\s*NN,\s*D,\s*DD>\s*PartialOrd<Record<NN,\s*DD>>\s*for\s+Record<N,\s*D>\s*where[^{]*\{", "PartialOrd for Record")
+    ch_ = straight_chain(fields_cmp_chain(b, "Record::partial_cmp"), "Record::partial_cmp")
+    if any(mth != "partial_cmp" for _, mth in ch_):
+        raise GenError("Record::partial_cmp uses another method than partial_cmp")
+    defs.append(("record_partial_fields", "list N", nlist([FIELD[x] for x, _ in ch_])))
     b = impl_after(rc, r"impl<N,\s*NN,\s*D,\s*DD>\s*CanonicalOrd<Record<NN,\s*DD>>\s*for\s+Record<N,\s*D>\s*where[^{]*\{", "CanonicalOrd for Record")
     ch_ = straight_chain(fields_cmp_chain(b, "Record::canonical_cmp"), "Record::canonical_cmp")
     want = {"class": "cmp", "owner": "name_cmp", "rtype": "cmp", "data": "canonical_cmp"}
@@ -255,7 +273,14 @@ def build():
     defs.append(("header_hash_fields", "list N", nlist([FIELD[x] for x in fs])))
     b = impl_after(rc, r"impl<Name:\s*ToName>\s*Ord\s+for\s+RecordHeader<Name>\s*\{", "Ord for RecordHeader")
     ch_ = straight_chain(fields_cmp_chain(b, "RecordHeader::cmp"), "RecordHeader::cmp")
+    if [mth for _, mth in ch_] != ["name_cmp", "cmp", "cmp", "cmp", "cmp"][:len(ch_)]:
+        raise GenError("RecordHeader::cmp methods changed: %r" % (ch_,))
     defs.append(("header_cmp_fields", "list N", nlist([FIELD[x] for x, _ in ch_])))
+    b = impl_after(rc, r"impl<Name,\s*NName>\s*PartialOrd<RecordHeader<NName>>\s*for\s+RecordHeader<Name>\s*where[^{]*\{", "PartialOrd for RecordHeader")
+    ch_ = straight_chain(fields_cmp_chain(b, "RecordHeader::partial_cmp"), "RecordHeader::partial_cmp")
+    if [mth for _, mth in ch_] != ["name_cmp", "partial_cmp", "partial_cmp", "partial_cmp", "partial_cmp"][:len(ch_)]:
+        raise GenError("RecordHeader::partial_cmp methods changed: %r" % (ch_,))
+    defs.append(("header_partial_fields", "list N", nlist([FIELD[x] for x, _ in ch_])))
 
     b = impl_after(rc, r"impl<'o,\s*Octs,\s*Other>\s*PartialEq<ParsedRecord<'o,\s*Other>>\s*for\s+ParsedRecord<'_,\s*Octs>\s*where[^{]*\{", "PartialEq for ParsedRecord")
     one(r"self\.header\s*==\s*other\.header\s*&&\s*self\s*\.data\s*\.peek\(self\.header\.rdlen\(\) as usize\)\s*\.eq\(&other\.data\.peek\(other\.header\.rdlen\(\) as usize\)\)", fn_body(b, "eq"), "ParsedRecord::eq")
@@ -448,12 +473,14 @@ def build():
     # wire form (salt, owner hash), 9 type bitmap octets
     KIND_TYPES = {
         1: {"u8", "SecurityAlgorithm", "DigestAlgorithm", "TlsaCertificateUsage", "TlsaSelector", "TlsaMatchingType",
-            "SshfpAlgorithm", "SshfpType", "Nsec3HashAlgorithm", "CaaFlags", "ZonemdScheme", "ZonemdAlgorithm"},
-        2: {"u16", "Rtype"},
+            "SshfpAlgorithm", "SshfpType", "Nsec3HashAlgorithm", "CaaFlags", "ZonemdScheme", "ZonemdAlgorithm",
+            "IpseckeyGatewayType", "IpseckeyAlgorithm"},
+        2: {"u16", "Rtype", "TsigRcode"},
         3: {"u32", "Ttl", "Timestamp", "Serial"},
-        4: {"N", "Name"}, 5: {"N", "Name"},
+        4: {"N", "Name"}, 5: {"N", "Name", "IpseckeyGateway<N>"},
         6: {"CharStr<Octs>", "CaaTag<Octs>"},
-        7: {"Octs"}, 8: {"Nsec3Salt<Octs>", "OwnerHash<Octs>"}, 9: {"RtypeBitmap<Octs>"},
+        7: {"Octs", "SvcParams<Octs>"}, 8: {"Nsec3Salt<Octs>", "OwnerHash<Octs>"}, 9: {"RtypeBitmap<Octs>"},
+        10: {"IpseckeyGateway<N>"}, 11: {"IpseckeyGateway<N>"}, 12: {"Time48"}, 13: {"Octs"},
     }
     def strip_attrs(t):
         out = []; i = 0
@@ -478,11 +505,12 @@ def build():
             if n_ not in order:
                 raise GenError("%s: unknown field %s" % (what, n_))
         return [order.index(n_) for n_ in names]
-    def type_table(rel, ty, code, kinds):
+    def type_table(rel, ty, code, kinds, skip=(), drop=None):
         src = strip_comments(read(rel))
         m = one(r"pub\s+struct\s+%s<[^{]*\{" % ty, src, "struct %s" % ty)
         body = strip_attrs(block_from(src, m.end() - 1))
         flds = re.findall(r"(?:pub(?:\([a-z]+\))?\s+)?([a-z_][a-z_0-9]*)\s*:\s*([^,\n]+?)\s*,", body)
+        flds = [(f, t) for f, t in flds if f not in skip]
         order = [f for f, _ in flds]
         if len(order) != len(kinds):
             raise GenError("struct %s has fields %r, expected %d" % (ty, order, len(kinds)))
@@ -493,7 +521,7 @@ def build():
         # PartialEq
         eb = fn_body(impl_after(src, gen + r"PartialEq<%s<[^>]*>>\s*for\s+%s<[^>]*>\s*(?:where[^{]*)?\{" % (ty, ty), "PartialEq for " + ty), "eq")
         es = re.findall(r"self\.([a-z_]+)(?:\.as_ref\(\)|\.into_int\(\))*\s*(?:==\s*|\.eq\(\s*&?\s*|\.name_eq\(\s*&\s*)other\.([a-z_]+)", eb)
-        if any(a != b_ for a, b_ in es) or len(es) != len(re.findall(r"\bother\.", eb)):
+        if any(a != b_ for a, b_ in es) or len(es) != len(re.findall(r"==|\.eq\(|\.name_eq\(", eb)):
             raise GenError("%s::eq: unrecognised comparison" % ty)
         # Hash
         hdr = gen + r"Hash\s+for\s+%s<[^>]*>\s*(?:where[^{]*)?\{" % ty
@@ -509,8 +537,11 @@ def build():
                 raise GenError("%s: neither a Hash impl nor derive(Hash)" % ty)
             hs = list(order)   # derive: every field, in declaration order
         # CanonicalOrd and Ord
-        rx = re.compile(r"(?:u32::from\()?self\.([a-z_]+)\)?((?:\s*\.into_int\(\)|\s*\.as_ref\(\))*)\s*\.\s*(cmp|canonical_cmp|name_cmp|composed_cmp|lowercase_composed_cmp|partial_cmp)\(\s*&?\s*(?:u32::from\()?(self|other)\.([a-z_]+)")
+        rx = re.compile(r"(?:u32::from\()?self\.([a-z_]+)\)?((?:\s*\.into_int\(\)|\s*\.as_ref\(\))*)\s*\.\s*(cmp|canonical_cmp|name_cmp|composed_cmp|lowercase_composed_cmp|partial_cmp|gwcanon)\(\s*&?\s*(?:u32::from\()?(self|other)\.([a-z_]+)")
+        lenrx = re.compile(r"match\s+self\.([a-z_]+)\.as_ref\(\)\.len\(\)\.cmp\(\s*&other\.\1\.as_ref\(\)\.len\(\)\s*\)\s*\{\s*Ordering::Equal\s*=>\s*\{\s*\}\s*,?\s*other\s*=>\s*return\s+other\s*,?\s*\}")
+        gwrx = re.compile(r"let\s+gateway_cmp\s*=\s*match\s*\(&self\.gateway,\s*&other\.gateway\)\s*\{\s*\(IpseckeyGateway::Name\(n\),\s*IpseckeyGateway::Name\(o\)\)\s*=>\s*\{\s*Some\(n\.composed_cmp\(o\)\)\s*\}\s*\(gateway,\s*other\)\s*=>\s*gateway\.partial_cmp\(other\),?\s*\};\s*match\s+gateway_cmp")
         def chain(body, what):
+            body = gwrx.sub("match self.gateway.gwcanon(&other.gateway)", lenrx.sub("", body))
             got = []
             for mm in rx.finditer(body):
                 if mm.group(4) != "other" or mm.group(1) != mm.group(5):
@@ -520,7 +551,8 @@ def build():
         cb = fn_body(impl_after(src, gen + r"CanonicalOrd<%s<[^>]*>>\s*for\s+%s<[^>]*>\s*(?:where[^{]*)?\{" % (ty, ty), "CanonicalOrd for " + ty), "canonical_cmp")
         cs = chain(cb, ty + "::canonical_cmp")
         for (f, meth), k in zip(cs, [kinds[order.index(f)] for f, _ in cs]):
-            want = {4: "lowercase_composed_cmp", 5: "composed_cmp", 6: "canonical_cmp", 8: "canonical_cmp", 9: ("canonical_cmp", "cmp")}.get(k, "cmp")
+            want = {4: "lowercase_composed_cmp", 5: ("composed_cmp", "gwcanon"), 6: "canonical_cmp", 8: "canonical_cmp", 9: ("canonical_cmp", "cmp"),
+                    7: ("cmp", "canonical_cmp"), 10: "gwcanon", 11: "gwcanon"}.get(k, "cmp")
             if meth != want and meth not in (want if isinstance(want, tuple) else ()) and not (k == 3 and meth == "canonical_cmp"):
                 raise GenError("%s::canonical_cmp: field %s (kind %d) compared with %s" % (ty, f, k, meth))
         ob = fn_body(impl_after(src, gen + r"Ord\s+for\s+%s<[^>]*>\s*(?:where[^{]*)?\{" % ty, "Ord for " + ty), "cmp")
@@ -534,7 +566,7 @@ def build():
         # 6 CharStr cmp (lower-cased octets), 7 length first then octets,
         # 8 plain octet order
         ftype = dict(flds)
-        def mode(f, meth, raw, what):
+        def mode(f, meth, raw, what, lenf=False):
             k = kinds[order.index(f)]
             t = ftype[f]
             if k in (1, 2, 3):
@@ -546,8 +578,8 @@ def build():
                     raise GenError("%s: %s of type %s compared with %s" % (what, f, t, meth))
                 if meth in ("cmp", "partial_cmp"):
                     return 1
-            elif k in (4, 5):
-                return {"name_cmp": 3, "lowercase_composed_cmp": 4, "composed_cmp": 5}.get(meth) or _bad(what, f, meth)
+            elif k in (4, 5) and meth in ("name_cmp", "lowercase_composed_cmp", "composed_cmp"):
+                return {"name_cmp": 3, "lowercase_composed_cmp": 4, "composed_cmp": 5}[meth]
             elif k == 6:
                 return {"cmp": 6, "partial_cmp": 6, "canonical_cmp": 7}.get(meth) or _bad(what, f, meth)
             elif k in (7, 9):
@@ -555,16 +587,31 @@ def build():
                     return 8
             elif k == 8:
                 return {"cmp": 8, "partial_cmp": 8, "canonical_cmp": 7}.get(meth) or _bad(what, f, meth)
+            elif k in (10, 11):
+                if meth in ("partial_cmp", "gwcanon"):
+                    return 8
+            elif k == 12:
+                if meth in ("cmp", "partial_cmp"):
+                    return 1
+            elif k == 13:
+                if meth in ("cmp", "partial_cmp"):
+                    return 7 if lenf else 8
+            if k == 5 and meth == "partial_cmp" and t == "IpseckeyGateway<N>":
+                return 3          # IpseckeyGateway::partial_cmp: Name arm is name_cmp (anchored above)
+            if k == 5 and meth == "gwcanon":
+                return 5
             _bad(what, f, meth)
         def _bad(what, f, meth):
             raise GenError("%s: field %s compared with %s" % (what, f, meth))
         def steps(body, what):
             out_ = []
+            lenfields = set(lenrx.findall(body))
+            body = gwrx.sub("match self.gateway.gwcanon(&other.gateway)", lenrx.sub("", body))
             for mm in rx.finditer(body):
                 if mm.group(4) != "other" or mm.group(1) != mm.group(5):
                     raise GenError("%s compares self.%s with %s.%s" % (what, mm.group(1), mm.group(4), mm.group(5)))
-                out_.append((order.index(mm.group(1)), mode(mm.group(1), mm.group(3), mm.group(0), what)))
-            if len(out_) != len(re.findall(r"\.(?:cmp|partial_cmp|canonical_cmp|name_cmp|composed_cmp|lowercase_composed_cmp)\(", body)):
+                out_.append((order.index(mm.group(1)), mode(mm.group(1), mm.group(3), mm.group(0), what, mm.group(1) in lenfields)))
+            if len(out_) != len(re.findall(r"\.(?:cmp|partial_cmp|canonical_cmp|name_cmp|composed_cmp|lowercase_composed_cmp|gwcanon)\(", body)):
                 raise GenError("%s: a comparison step was not recognised" % what)
             return out_
         c_steps = steps(cb, ty + "::canonical_cmp")
@@ -583,6 +630,15 @@ def build():
         row = "(%d, (%s, (%s, %s, %s, %s)))" % (code, nlist(kinds), nlist(idx_list([a for a, _ in es], order, ty + "::eq")),
               nlist(idx_list(os_, order, ty + "::cmp")), nlist(idx_list([f for f, _ in cs], order, ty + "::canonical_cmp")),
               nlist(idx_list(hs, order, ty + "::hash")))
+        if drop is not None:
+            # a variant without that field (IPSECKEY without gateway): remove the index and renumber
+            d = order.index(drop)
+            fix = lambda l: [i - (1 if i > d else 0) for i in l if i != d]
+            fixs = lambda st: [(i - (1 if i > d else 0), md) for i, md in st if i != d]
+            ord_rows[-1] = "(%d, (%s, %s, %s))" % (code, plist(fixs(o_steps)), plist(fixs(p_steps)), plist(fixs(c_steps)))
+            ks = [k for i, k in enumerate(kinds) if i != d]
+            row = "(%d, (%s, (%s, %s, %s, %s)))" % (code, nlist(ks), nlist(fix(idx_list([a for a, _ in es], order, ty))), nlist(fix(idx_list(os_, order, ty))),
+                  nlist(fix(idx_list([f for f, _ in cs], order, ty))), nlist(fix(idx_list(hs, order, ty))))
         return row
     ord_rows = []
     rows = [
@@ -605,7 +661,30 @@ def build():
         type_table("src/rdata/nsec3.rs", "Nsec3param", 51, [1, 1, 2, 8]),
         type_table("src/rdata/caa.rs", "Caa", 257, [1, 6, 7]),
         type_table("src/rdata/naptr.rs", "Naptr", 35, [2, 2, 6, 6, 6, 4]),
+        type_table("src/rdata/tsig.rs", "Tsig", 250, [5, 12, 2, 13, 2, 2, 13]),
+        type_table("src/rdata/svcb/rdata.rs", "SvcbRdata", 64, [2, 5, 7], skip=("marker",)),
+        type_table("src/rdata/svcb/rdata.rs", "SvcbRdata", 65, [2, 5, 7], skip=("marker",)),
+        # IPSECKEY by gateway variant: pseudo codes 45000 + gateway type
+        type_table("src/rdata/ipseckey.rs", "Ipseckey", 45000, [1, 1, 1, 5, 7], drop="gateway"),
+        type_table("src/rdata/ipseckey.rs", "Ipseckey", 45001, [1, 1, 1, 10, 7]),
+        type_table("src/rdata/ipseckey.rs", "Ipseckey", 45002, [1, 1, 1, 11, 7]),
+        type_table("src/rdata/ipseckey.rs", "Ipseckey", 45003, [1, 1, 1, 5, 7]),
     ]
+    # single-field types: A / AAAA (all traits derived or `self.cmp(other)`, anchored above), TXT, OPT
+    def single(code, kind):
+        rows.append("(%d, ([%d]%%N, ([0]%%N, [0]%%N, [0]%%N, [0]%%N)))" % (code, kind))
+        ord_rows.append("(%d, ([(0, 8)]%%N, [(0, 8)]%%N, [(0, 8)]%%N))" % code)
+    single(1, 10); single(28, 11)
+    txs = strip_comments(read("src/rdata/rfc1035/txt.rs"))
+    for tr, meth in (("PartialEq<Txt<Other>>", "eq"), ("PartialOrd<Txt<Other>>", "partial_cmp")):
+        one(r"^\s*self\.0\.as_ref\(\)\.%s\(\s*other\.0\.as_ref\(\)\s*\)\s*$" % meth, fn_body(impl_after(txs, r"impl<Octs,\s*Other>\s*%s\s*for\s+Txt<Octs>\s*where[^{]*\{" % re.escape(tr), tr + " for Txt"), meth), "Txt::" + meth)
+    one(r"^\s*self\.0\.as_ref\(\)\.cmp\(\s*other\.0\.as_ref\(\)\s*\)\s*$", fn_body(impl_after(txs, r"impl<Octs:\s*AsRef<\[u8\]>>\s*Ord\s+for\s+Txt<Octs>\s*\{", "Ord for Txt"), "cmp"), "Txt::cmp")
+    single(16, 7)
+    ops_ = strip_comments(read("src/base/opt/mod.rs"))
+    for tr, meth in (("PartialEq<Opt<Other>>", "eq"), ("PartialOrd<Opt<Other>>", "partial_cmp")):
+        one(r"^\s*self\.octets\.as_ref\(\)\.%s\(\s*other\.octets\.as_ref\(\)\s*\)\s*$" % meth, fn_body(impl_after(ops_, r"impl<Octs,\s*Other>\s*%s\s*for\s+Opt<Octs>\s*where[^{]*\{" % re.escape(tr), tr + " for Opt"), meth), "Opt::" + meth)
+    one(r"^\s*self\.octets\.as_ref\(\)\.cmp\(\s*other\.octets\.as_ref\(\)\s*\)\s*$", fn_body(impl_after(ops_, r"impl<Octs:\s*AsRef<\[u8\]>\s*\+\s*\?Sized>\s*Ord\s+for\s+Opt<Octs>\s*\{", "Ord for Opt"), "cmp"), "Opt::cmp")
+    single(41, 7)
     defs.append(("rd_table", "list (N * (list N * (list N * list N * list N * list N)))", "[" + "; ".join(rows) + "]%N"))
     defs.append(("rd_ord_table", "list (N * (list (N * N) * list (N * N) * list (N * N)))", "[" + "; ".join(ord_rows) + "]%N"))
     # the inner types the modes rely on
